@@ -147,6 +147,12 @@ func (s c03Spec) ops(w *model.World) (out []opx) {
 				}
 				return nil
 			}})
+			// the index is created while a transaction that already wrote the column is open
+			if len(rows) > 0 {
+				mk := model.Act{Op: "call", Key: "createIndex(" + ix + ")", Call: func() error { return w.CreateIndex(ix) }}
+				out = append(out, txnOp(w, []model.Act{{Op: "put", Off: rows[0], W: []model.Write{{Col: col, V: vals[1]}}}, mk}, false))
+				out = append(out, txnOp(w, []model.Act{{Op: "insert", W: []model.Write{{Col: col, V: vals[0]}}}, mk, {Op: "put", Off: rows[0], W: []model.Write{{Col: col, V: vals[0]}}}}, false))
+			}
 		}
 	}
 	return out
@@ -157,7 +163,7 @@ func init() {
 		Prop:  "C03",
 		Level: "model_checking",
 		Rule: "every history up to depth d over {insert with a value on either side of the predicate, empty insert, overwrite, merge, put+merge and merge+put in one " +
-			"transaction, delete (offset reuse), createIndex, dropIndex} per index family (numeric thresholds incl. two indexes with one predicate, string equality, bool, enum equality); " +
+			"transaction, delete (offset reuse), createIndex, dropIndex, createIndex from inside a transaction body that already wrote the column} per index family (numeric thresholds incl. two indexes with one predicate, string equality, bool, enum equality); " +
 			"at every node: With(index) and Row.Bool(index) on the primary, on a stream replica and on a restored snapshot (indexes created before and after the data) equal the " +
 			"predicate evaluated on the model; states = distinct model states",
 		Assumptions: []string{"re-creating an index under a name that is still in use is not exercised"},
